@@ -708,7 +708,8 @@ class Parser:
         self.expect(Ellip)
 
         lead = self.peek()
-        if lead.__class__ is Name and lead.value != "on":
+        has_type_condition = lead.__class__ is Name and lead.value == "on"
+        if lead.__class__ is Name and not has_type_condition:
             return _ast.FragmentSpread(
                 name=self.parse_fragment_name(),
                 directives=self.parse_directives(False),
@@ -719,7 +720,7 @@ class Parser:
         return _ast.InlineFragment(
             type_condition=(
                 cast(_ast.NamedType, self.advance() and self.parse_named_type())
-                if lead.value == "on"
+                if has_type_condition
                 else None
             ),
             directives=self.parse_directives(False),
@@ -1052,7 +1053,7 @@ class Parser:
         """
         token = self.peek()
         types = []
-        if token.value == "implements":
+        if token.__class__ is Name and token.value == "implements":
             self.advance()
             self.skip(Ampersand)
             while True:
